@@ -140,6 +140,6 @@ PROPS = {
             U("limitl", "TestC20", q(3000), q(20000, 2), race=True),
             U("pure", "TestC20", q(400), q(6000, 2), race=True),
         ],
-        "assumptions": ["Go race detector (happens-before based; reports only races in executed schedules)", RAPID, "free-running scenarios are not pinned by the seed (the script is, the interleaving is not); a reported race is confirmed by re-running its script up to 10 times", "inside bubbles synctest.Wait adds happens-before edges between harness and discipline, which is why the real-time scenarios exist", "the pure functions are called concurrently only with arguments no other goroutine touches (sharing a slice the helpers sort would be the caller's race)"],
+        "assumptions": ["Go race detector (happens-before based; reports only races in executed schedules)", RAPID, "free-running scenarios are not pinned by the seed (the script is, the interleaving is not); a reported race is confirmed by re-running its script up to 10 (race lab: 25) times; a report with a library frame, or on the handler logs that are read only after graceful termination, counts without recurrence", "inside bubbles synctest.Wait adds happens-before edges between harness and discipline, which is why the real-time scenarios exist", "the pure functions are called concurrently only with arguments no other goroutine touches (sharing a slice the helpers sort would be the caller's race)"],
     },
 }
